@@ -41,6 +41,17 @@ func verifDoc(tag, first string) *ast.CommentGroup {
 	return &ast.CommentGroup{List: list}
 }
 
+// a trailing (same-line) comment that looks like a setting: it is not a doc comment and must not count
+func verifTrailing(tag string) *ast.CommentGroup {
+	switch nondetChoice(tag+".trailing", 3) {
+	case 1:
+		return &ast.CommentGroup{List: []*ast.Comment{{Text: "// goverter:map Trailing Name"}}}
+	case 2:
+		return &ast.CommentGroup{List: []*ast.Comment{{Text: "/* goverter:ignore Trailing */"}}}
+	}
+	return nil
+}
+
 func verifSame(id string, got, want []string) {
 	verifAssert(id+"-count", len(got) == len(want))
 	for i := 0; i < len(got) && i < len(want); i++ {
@@ -121,4 +132,59 @@ func VerifHarness_C19_NoMarker() {
 	wrong2 := &ast.GenDecl{Tok: token.TYPE, Doc: &ast.CommentGroup{List: []*ast.Comment{{Text: "// goverter:variables"}}}, Specs: []ast.Spec{&ast.TypeSpec{Name: &ast.Ident{Name: "T"}, Type: &ast.InterfaceType{Methods: &ast.FieldList{}}}}}
 	_, err = parseGenDecl(fset, pkg, wrong2)
 	verifAssert("variables-marker-on-type-is-an-error", err != nil)
+}
+
+// VerifHarness_C19_Trailing: trailing (same-line) comments of methods, variables and type specs never
+// contribute setting lines, whether or not the declaration also has a doc comment.
+func VerifHarness_C19_Trailing() {
+	fset := token.NewFileSet()
+	pkg := types.NewPackage("example.org/in", "in")
+	doc := func(text string) *ast.CommentGroup {
+		return &ast.CommentGroup{List: []*ast.Comment{{Text: text}}}
+	}
+	if nondetChoice("kind", 2) == 0 {
+		var mdoc *ast.CommentGroup
+		documented := nondetChoice("method.documented", 2) == 1
+		if documented {
+			mdoc = doc("// goverter:ignore Doc")
+		}
+		iface := &ast.InterfaceType{Methods: &ast.FieldList{List: []*ast.Field{
+			{Names: []*ast.Ident{{Name: "Convert"}}, Doc: mdoc, Type: &ast.FuncType{}, Comment: verifTrailing("method")},
+		}}}
+		spec := &ast.TypeSpec{Name: &ast.Ident{Name: "Converter"}, Type: iface, Comment: verifTrailing("spec")}
+		decl := &ast.GenDecl{Tok: token.TYPE, Specs: []ast.Spec{spec}, Doc: doc("// goverter:converter")}
+		convs, err := parseGenDecl(fset, pkg, decl)
+		verifAssert("converter-recognised", err == nil && len(convs) == 1)
+		if err != nil || len(convs) != 1 {
+			return
+		}
+		verifReach("interface")
+		verifAssert("trailing-comment-of-type-spec-ignored", len(convs[0].Converter.Lines) == 1 && convs[0].Converter.Lines[0] == "converter")
+		if documented {
+			verifAssert("trailing-comment-of-documented-method-ignored", len(convs[0].Methods["Convert"].Lines) == 1 && convs[0].Methods["Convert"].Lines[0] == "ignore Doc")
+		} else {
+			verifAssert("trailing-comment-of-undocumented-method-ignored", len(convs[0].Methods["Convert"].Lines) == 0)
+		}
+		return
+	}
+	var vdoc *ast.CommentGroup
+	documented := nondetChoice("variable.documented", 2) == 1
+	if documented {
+		vdoc = doc("// goverter:ignore Doc")
+	}
+	decl := &ast.GenDecl{Tok: token.VAR, Doc: doc("// goverter:variables"), Specs: []ast.Spec{
+		&ast.ValueSpec{Names: []*ast.Ident{{Name: "Conv"}}, Doc: vdoc, Comment: verifTrailing("variable")},
+	}}
+	convs, err := parseGenDecl(fset, pkg, decl)
+	verifAssert("variables-block-recognised", err == nil && len(convs) == 1)
+	if err != nil || len(convs) != 1 {
+		return
+	}
+	verifReach("variables")
+	verifAssert("block-lines-unaffected", len(convs[0].Converter.Lines) == 1 && convs[0].Converter.Lines[0] == "variables")
+	if documented {
+		verifAssert("trailing-comment-of-documented-variable-ignored", len(convs[0].Methods["Conv"].Lines) == 1 && convs[0].Methods["Conv"].Lines[0] == "ignore Doc")
+	} else {
+		verifAssert("trailing-comment-of-undocumented-variable-ignored", len(convs[0].Methods["Conv"].Lines) == 0)
+	}
 }
